@@ -10,8 +10,10 @@ import (
 	"reflect"
 	"sort"
 	"strings"
+	"sync/atomic"
 	"unsafe"
 
+	"github.com/BondMachineHQ/BondMachine/pkg/bmnumbers"
 	"github.com/BondMachineHQ/BondMachine/pkg/bondmachine"
 	"github.com/BondMachineHQ/BondMachine/pkg/procbuilder"
 	"github.com/BondMachineHQ/BondMachine/pkg/simbox"
@@ -122,6 +124,17 @@ func InOut(prog string) MachineDef {
 		Inputs:  1,
 		Outputs: 1,
 		Bonds:   [][2]string{{"p0i0", "i0"}, {"o0", "p0o0"}},
+	}
+}
+
+// InOut2 is InOut with a second BM output: SinglePipelineSimulate renders every output but the last one with the
+// caller's data type, so only machines with >= 2 outputs exercise the number-type registry.
+func InOut2(prog string) MachineDef {
+	return MachineDef{
+		Procs:   []Proc{{Prog: prog, N: 1, M: 2}},
+		Inputs:  1,
+		Outputs: 2,
+		Bonds:   [][2]string{{"p0i0", "i0"}, {"o0", "p0o0"}, {"o1", "p0o1"}},
 	}
 }
 
@@ -267,16 +280,35 @@ var SharedDelays = &simbox.SimDelays{OpcodeDelays: map[string]simbox.DelayDistri
 
 // RunSPS runs Bondmachine.SinglePipelineSimulate (without delays, or with the shared delay table)
 // and renders its result.
-func RunSPS(bm *bondmachine.Bondmachine, input []string, delays bool) string {
+// The observation also says by how much the process-wide number-type registry grew during the call: a simulation
+// that shows values of an already registered type leaves it alone.
+func RunSPS(bm *bondmachine.Bondmachine, input []string, delays bool, dataType string) string {
+	return runSPS(bm, input, delays, dataType, true)
+}
+
+// measure == false: the registry is not looked at (the harness has no synchronised way to read it while another
+// simulation legitimately registers a new type)
+func runSPS(bm *bondmachine.Bondmachine, input []string, delays bool, dataType string, measure bool) string {
 	var sd *simbox.SimDelays
 	if delays {
 		sd = SharedDelays
 	}
-	out, err := bm.SinglePipelineSimulate("unsigned", input, sd)
-	if err != nil {
-		return "error: " + err.Error()
+	if dataType == "" {
+		dataType = "unsigned"
 	}
-	return fmt.Sprintf("%q", out)
+	before := 0
+	if measure {
+		before = len(bmnumbers.AllTypes)
+	}
+	out, err := bm.SinglePipelineSimulate(dataType, input, sd)
+	grew := 0
+	if measure {
+		grew = len(bmnumbers.AllTypes) - before
+	}
+	if err != nil {
+		return fmt.Sprintf("error: %s registry+%d", err.Error(), grew)
+	}
+	return fmt.Sprintf("%q registry+%d", out, grew)
 }
 
 // ---------------------------------------------------------------- scenarios
@@ -293,6 +325,11 @@ type Sim struct {
 	SPS   bool     // run SinglePipelineSimulate with Input instead of RunVM
 	Input []string
 	Delay bool // SPS only: pass the shared per-opcode delay table
+	// SPS only: the data type the outputs are rendered with (default unsigned)
+	DataType string
+	// SPS only: every run of the scenario uses a dynamical type name no earlier run used (all simulations of
+	// one run the same name), so that the concurrent simulations meet at the FIRST use of the type
+	FreshType bool
 }
 
 // Scenario is a set of simulations run concurrently in one process (one = run alone).
@@ -304,6 +341,9 @@ type Scenario struct {
 	Ticks     [2]int
 	Bound     [2]int // preemption bound quick / thorough
 	Note      string
+	// RaceOnly: executed by the free-running -race pass only (its observations differ from run to run by
+	// construction, so it cannot be replayed under the controlled scheduler)
+	RaceOnly bool
 }
 
 const (
@@ -322,6 +362,7 @@ func pipeProgShort(op string) string {
 }
 
 const spsProg = "i2rw r0 i0\ninc r0\nr2owa r0 o0\n"
+const spsProgTwoOut = "i2rw r0 i0\nr2owa r0 o0\nr2owa r0 o1\n"
 const spsProg2 = "i2rw r1 i0\ninc r1\ninc r1\nr2owa r1 o0\n"
 
 // All returns the scenario list.
@@ -362,6 +403,10 @@ func All() []Scenario {
 			Note: "two concurrent SinglePipelineSimulate calls sharing one machine and ONE per-opcode delay table (as cmd/simfinetune does)"},
 		{Name: "twosps-diff-delays", Sims: []Sim{{Def: InOut(spsProg), SPS: true, Input: []string{"5"}, Delay: true}, {Def: InOut(spsProg2), SPS: true, Input: []string{"7"}, Delay: true}}, Bound: [2]int{1, 2},
 			Note: "two concurrent SinglePipelineSimulate calls on different machines sharing one per-opcode delay table"},
+		{Name: "twosps-dyntype-first-use", RaceOnly: true, Sims: []Sim{{Def: InOut2(spsProgTwoOut), SPS: true, Input: []string{"5"}, FreshType: true}, {Def: InOut2(spsProgTwoOut), SPS: true, Input: []string{"9"}, FreshType: true}}, Bound: [2]int{1, 1},
+			Note: "two concurrent SinglePipelineSimulate calls that both show values in a dynamical number type nobody has used before (race pass only)"},
+		{Name: "twosps-dyntype", Sims: []Sim{{Def: InOut2(spsProgTwoOut), SPS: true, Input: []string{"5"}, DataType: "fps8f4"}, {Def: InOut2(spsProgTwoOut), SPS: true, Input: []string{"9"}, DataType: "fps8f4"}}, Bound: [2]int{1, 2},
+			Note: "two concurrent SinglePipelineSimulate calls on two-output machines showing values in a (registered) dynamical number type: the process-wide type registry is shared"},
 	}
 	return s
 }
@@ -380,10 +425,29 @@ func ByName(n string) (Scenario, bool) {
 var TickOverride int
 
 // Built is a scenario with its (read-only) machines constructed.
+// freshTypes: fixed point types not wider than the 8-bit registers of the scenario machines, none of them registered
+// when the process starts (after the list is used up the names repeat: then it is an ordinary registered type)
+var freshTypes = func() []string {
+	var l []string
+	for s := 3; s <= 8; s++ {
+		for f := 1; f < s; f++ {
+			if s == 8 && f == 4 {
+				continue
+			}
+			l = append(l, fmt.Sprintf("fps%df%d", s, f))
+		}
+	}
+	return l
+}()
+
+// globalRun numbers the runs of all scenarios of the process (fresh type names are per process)
+var globalRun int64
+
 type Built struct {
-	Sc  Scenario
-	BMs []*bondmachine.Bondmachine
-	T   int
+	Sc    Scenario
+	BMs   []*bondmachine.Bondmachine
+	T     int
+	runNo int64
 }
 
 // Prepare builds the machines of the scenario once (they are inputs of the simulation; the
@@ -413,7 +477,12 @@ func (b *Built) runSim(i int) []string {
 		prefix = fmt.Sprintf("sim%d ", i)
 	}
 	if s.SPS {
-		return []string{prefix + "SPS " + RunSPS(b.BMs[i], s.Input, s.Delay)}
+		if s.FreshType {
+			n := atomic.LoadInt64(&b.runNo)
+			runSPS(b.BMs[i], s.Input, s.Delay, freshTypes[int(n)%len(freshTypes)], false)
+			return []string{prefix + "SPS done"}
+		}
+		return []string{prefix + "SPS " + RunSPS(b.BMs[i], s.Input, s.Delay, s.DataType)}
 	}
 	return RunVM(b.BMs[i], s.Rules, b.T).Lines(prefix)
 }
@@ -422,6 +491,7 @@ func (b *Built) runSim(i int) []string {
 // observation lines (simulation 0 first).  The opcode state is reset first.
 func (b *Built) Run(spawn Spawner) []string {
 	ResetOpcodeState()
+	atomic.StoreInt64(&b.runNo, atomic.AddInt64(&globalRun, 1))
 	res := make([][]string, len(b.Sc.Sims))
 	if len(b.Sc.Sims) == 1 {
 		res[0] = b.runSim(0)
